@@ -156,7 +156,7 @@ From Mxj Require Import Gen.Setters_gen Gen.PureSupport Gen.Pure_gen GenProofs.P
 
 Theorem C04_beautify_code : forall (NewMapXmlSeq : str -> list bool -> res entries)
     (XmlIndent : entries -> str -> str -> list str -> res str) st doc prefix indent,
-  fn_BeautifyXml NewMapXmlSeq XmlIndent st doc prefix indent
+  fn_BeautifyXml XmlIndent NewMapXmlSeq st doc prefix indent
   = of_res (bind (NewMapXmlSeq doc []) (fun x => XmlIndent x prefix indent [])).
 Proof. exact beautify_code. Qed.
 Print Assumptions C04_beautify_code.
@@ -165,3 +165,30 @@ Theorem C04_new_map_xml_seq_code : forall (xmlSeqToMap : str -> bool -> res entr
   fn_NewMapXmlSeq xmlSeqToMap st doc cast = of_res (xmlSeqToMap doc (opt_flag cast)).
 Proof. exact new_map_xml_seq_code. Qed.
 Print Assumptions C04_new_map_xml_seq_code.
+
+(* ---- tie to the CURRENT source of xmlSeqToMapParser (xmlseq.go:220-437), the core of NewMapXmlSeq: go2v re-translates
+   the function statement by statement on every run (Gen/Pure_gen.v: snake-casing, the #attr map with #text / #seq per
+   attribute, the XMPP early return, the RawToken loop with all six token cases, recursion, #seq injection, list building,
+   the end-tag name check, the NoRoot returns); GenProofs/PureG15.v proves the translation - with the TRANSLATED cast and
+   escapeChars plugged in - equal to the model [seq_decode_rest] the theorems above are stated with, on EVERY token list
+   (no side condition), and that it never panics in any package state. *)
+From Mxj Require Import Gen.Setters_gen Gen.PureSupport Gen.Pure_gen GenProofs.PureG GenProofs.PureG15.
+
+Theorem C04_seq_parser_code_is_model : forall pf callskip o r st ts tm,
+  seq_view st o -> cast_view st o ->
+  sq_abs (fn_xmlSeqToMapParser (PureG15.run_cast pf callskip st) (PureG15.run_escapeChars st) (S (length ts)) st [] [] (ts, tm) r)
+  = seq_decode_rest pf (skip_of st callskip) o r ts tm.
+Proof. exact seq_parser_code_abs_translated. Qed.
+Print Assumptions C04_seq_parser_code_is_model.
+
+Theorem C04_seq_parser_code_eq : forall pf callskip o r st ts tm,
+  seq_view st o -> cast_view st o ->
+  fn_xmlSeqToMapParser (PureG15.run_cast pf callskip st) (PureG15.run_escapeChars st) (S (length ts)) st [] [] (ts, tm) r
+  = sq_ret tm (seq_decode_rest pf (skip_of st callskip) o r ts tm) (seq_decode_err pf (skip_of st callskip) o r ts tm).
+Proof. exact seq_parser_code_eq_translated. Qed.
+Print Assumptions C04_seq_parser_code_eq.
+
+Theorem C04_seq_parser_code_no_panic : forall pf callskip r st name a ts tm f, length ts < f ->
+  fn_xmlSeqToMapParser (PureG15.run_cast pf callskip st) (PureG15.run_escapeChars st) f st name a (ts, tm) r <> Crash.
+Proof. exact seq_parser_code_no_panic. Qed.
+Print Assumptions C04_seq_parser_code_no_panic.
